@@ -38,8 +38,12 @@ package agent
 //@ loop 0 invariant [frame] !held(a.mu) && a.started == old(a.started) && peercalls == old(peercalls) + 1 && poolcalls == old(poolcalls) + 1 && nodes == lastPeers
 //@                          && lastPeerReq.Num == num && lastPeerReq.Kind == ownKind(a)
 
+//@ func (*Agent).Whitelist
+//@ property C18
+//@ ensures [trusts-exactly-the-named-peer] trlen == old(trlen) + 1 && trarg[old(trlen)] == nodeID && rmlen == old(rmlen) && dclen == old(dclen) && cnlen == old(cnlen)
+
 //@ func (*Agent).UpdatePeers
-//@ property C18 C20
+//@ property C18
 //@ requires !held(a.mu)
 //@ ensures [unlocked] {C18 C20} !held(a.mu) && a.started == old(a.started)
 //@ ensures [calls]    {C18 C20} poolcalls >= old(poolcalls)
